@@ -140,6 +140,12 @@ def secondPass (R : Renamer σ) (strategy : Strategy) :
     List (APath × PurePath × PurePath) → Run σ → List Answer → Run σ × Option Outcome
   | [], r, _ => (r, none)
   | (dir, src, dst) :: rest, r, as =>       -- the list is given already reversed (pop order)
+    -- (F20) renames made in the meantime may have changed where the deferred path leads to
+    match contained (R.view r.st) dir dst with
+    | .error .UNMODELLED => (r, some .unmodelled)
+    | .error _ => (r, some .crash)
+    | .ok false => (r, some .invalidDest)
+    | .ok true =>
     match r.call R dir src dst false with
     | (r', none) => secondPass R strategy rest r' as
     | (r', some e) =>
